@@ -489,6 +489,35 @@ func runC16(c *fw.Ctx) {
 			}
 		}
 	}
+	// varints of every length (1..12 continuation octets) in every position a decoder reads one
+	for _, first := range []byte{0x80 | 0x7f, 0x40 | 0x3f, 0x0f, 0x1f, 0x3f} {
+		for n := 1; n <= 12; n++ {
+			for _, lastb := range []byte{0x7f, 0x01, 0x00} {
+				b := []byte{first}
+				for i := 0; i < n-1; i++ {
+					b = append(b, 0xff)
+				}
+				b = append(b, lastb, 0x01, 'v')
+				do(c16Case{Family: "hpack", Hex: hex.EncodeToString(b)}, true)
+			}
+		}
+	}
+	for _, first := range []byte{0x00, 0x10, 0x40} {
+		for n := 1; n <= 12; n++ {
+			for _, hbit := range []byte{0x00, 0x80} {
+				for _, lastb := range []byte{0x7f, 0x01, 0x00} {
+					l := []byte{0x7f | hbit}
+					for i := 0; i < n-1; i++ {
+						l = append(l, 0xff)
+					}
+					l = append(l, lastb)
+					do(c16Case{Family: "hpack", Hex: hex.EncodeToString(append([]byte{first, 0x01, 'k'}, l...))}, true)
+					do(c16Case{Family: "hpack", Hex: hex.EncodeToString(append([]byte{first}, l...))}, true)
+					do(c16Case{Family: "hpack", Hex: hex.EncodeToString(append([]byte{first | 0x02}, l...))}, true)
+				}
+			}
+		}
+	}
 	c.Family("hpack-bytes")
 	c.AddTraces(c.Evals)
 }
